@@ -21,6 +21,8 @@ private:
                 return;
             } else if (is_false(is_symmetric_)) {
                 if (found_nonsym) {
+                    // the sum of two non-symmetric matrices may be symmetric
+                    is_symmetric_ = tribool::indeterminate;
                     return;
                 } else {
                     found_nonsym = true;
@@ -93,7 +95,15 @@ public:
 
     void bvisit(const HadamardProduct &x)
     {
-        check_vector(x.get_factors());
+        // symmetric x symmetric x ... = symmetric; a non-symmetric factor
+        // does not make the product non-symmetric (e.g. I x A is diagonal)
+        for (auto &elt : x.get_factors()) {
+            elt->accept(*this);
+            if (not is_true(is_symmetric_)) {
+                is_symmetric_ = tribool::indeterminate;
+                return;
+            }
+        }
     }
 
     tribool apply(const MatrixExpr &s)
